@@ -130,6 +130,11 @@ func Run(chooser Chooser, opt Options, main func()) *Outcome {
 	if e.maxSteps == 0 {
 		e.maxSteps = 200000
 	}
+	if e.horizon == 0 {
+		// periodic tickers never go quiescent: beyond the horizon no timer fires, so a system
+		// that only polls is recognised as deadlocked
+		e.horizon = int64(10 * time.Minute)
+	}
 	if !current.CompareAndSwap(nil, e) {
 		panic("vsched: nested Run")
 	}
@@ -306,7 +311,13 @@ func (e *Exec) dispatch(from *Thread) {
 	for {
 		e.steps++
 		if e.steps > e.maxSteps {
-			e.finishFrom(from, &Outcome{Kind: "steplimit", Detail: fmt.Sprintf("more than %d scheduling steps", e.maxSteps)})
+			var bl []string
+			for _, u := range e.threads {
+				if !u.done {
+					bl = append(bl, u.Name+": "+u.op)
+				}
+			}
+			e.finishFrom(from, &Outcome{Kind: "steplimit", Detail: fmt.Sprintf("more than %d scheduling steps (livelock?): %s", e.maxSteps, strings.Join(bl, " | "))})
 			return
 		}
 		var opts []*Thread
